@@ -33,8 +33,8 @@ Inductive inner_set_spec (k : bytes) (r : record) (s : store) : store * result N
 | iss_absent :
     0 < r_cas r -> lookup k (s_mem s) = None ->
     inner_set_spec k r s
-      (with_mem s (insert k (stored s (saturating_add64 (r_cas r) 1) r) (s_mem s)),
-       ROk (saturating_add64 (r_cas r) 1))
+      (with_mem s (insert k (stored s (next_client_cas (r_cas r)) r) (s_mem s)),
+       ROk (next_client_cas (r_cas r)))
 | iss_mismatch old :
     0 < r_cas r -> lookup k (s_mem s) = Some old -> r_cas old <> r_cas r ->
     inner_set_spec k r s (s, RErr KeyExists).
